@@ -136,6 +136,35 @@ def execute(pool, t):
     raise Na()
 
 
+def iterator_protocol(o, full):
+    """the Python iterator protocol of the four enumerations: iter(it) is it; two iterators obtained from one object
+    advance independently and each yields the full sequence; after exhaustion StopIteration keeps being raised.
+    Returns "ok" or a short description of the first deviation (a Python-only observation: expected value ok)."""
+    for m, want in full.items():
+        a = getattr(o, m)(); b = getattr(o, m)()
+        if iter(a) is not a: return "%s:iter-not-self" % m
+        got_a, got_b = [], []
+        # interleave: two from a, one from b, ...
+        done_a = done_b = False
+        while not (done_a and done_b):
+            for _ in range(2):
+                if not done_a:
+                    try: got_a.append(next(a))
+                    except StopIteration: done_a = True
+            if not done_b:
+                try: got_b.append(next(b))
+                except StopIteration: done_b = True
+        if got_a != want: return "%s:interleaved-first-differs(%d/%d)" % (m, len(got_a), len(want))
+        if got_b != want: return "%s:interleaved-second-differs(%d/%d)" % (m, len(got_b), len(want))
+        for it in (a, b):
+            for _ in range(2):
+                try:
+                    next(it); return "%s:yields-after-exhaustion" % m
+                except StopIteration:
+                    pass
+    return "ok"
+
+
 def truth_vector(o):
     ins = sorted(call(o, "inputs"))
     return [call(o, "evaluate_safe", dict(zip(ins, p))) for p in all_points(len(ins))]
@@ -161,13 +190,14 @@ def query(pool, t):
     if q == "enum":
         o = reg(t[1]); k = kind_of(o)
         dom = list(call(o, "domain")); img = list(call(o, "image")); rel = list(call(o, "relation")); sup = list(call(o, "support"))
+        proto = iterator_protocol(o, {"domain": dom, "image": img, "relation": rel, "support": sup})
         if k == "B": sup.sort()
         sat = call(o, "sat_point")
         rel_s = "-" if not rel else ",".join("%s:%d" % (pt(p), 1 if b else 0) for p, b in rel)
         return "kind=%s inputs=%s ess=%s deg=%d essdeg=%d dom=%s img=%s rel=%s sup=%s w=%d sat=%s nodes=%s" % (
             k, names(sorted(call(o, "inputs"))), names(sorted(call(o, "essential_inputs"))), call(o, "degree"), call(o, "essential_degree"),
             pts(dom), bits(img), rel_s, pts(sup), call(o, "weight"), "none" if sat is None else pt(sat),
-            str(call(o, "node_count")) if k == "B" else "-")
+            str(call(o, "node_count")) if k == "B" else "-") + " proto=" + proto
     if q == "eval":
         o = reg(t[1]); v = valuation(int(t[3]), t[4:])
         if t[2] == "-":
